@@ -684,6 +684,27 @@ pub fn corpus(thorough: bool) -> Vec<DetCase> {
                     ("p::l::Right".into(), vec!["#[right]".into()], true),
                 ];
             }
+            if rn == "two recursive roots meeting in one generic" && sn == "globals" {
+                // round 10 (C06-m19): the same two recursive roots with ATTRIBUTES ONLY - no default derives, no
+                // derives anywhere - so that the entries merged per path have empty derive sets
+                let mut a = SettingsSpec::faithful();
+                a.root = "root".into();
+                a.attrs_for = vec![
+                    ("p::l::Left".into(), vec!["#[left]".into()], true),
+                    ("p::l::Right".into(), vec!["#[right]".into()], true),
+                ];
+                out.push(DetCase {
+                    reg: r.clone(),
+                    settings: a.clone(),
+                    note: format!("{rn} / attributes only"),
+                });
+                a.attrs_for.push(("p::g::D".into(), vec!["#[own]".into()], false));
+                out.push(DetCase {
+                    reg: r.clone(),
+                    settings: a,
+                    note: format!("{rn} / attributes only, one on the generic itself"),
+                });
+            }
             if rn == "recursive root with two instantiations" {
                 s.derives_for = vec![("p::g::W".into(), vec!["::z::Rec".into()], true)];
                 s.attrs_for = vec![("p::g::W".into(), vec!["#[rec]".into()], true)];
